@@ -21,6 +21,7 @@ type Config struct {
 	Interval      int64
 	Assets        []GenAsset
 	Blocks        int
+	Scale         int
 	Profile       string
 }
 
@@ -65,6 +66,25 @@ func GenConfig(r *rand.Rand, profile string) Config {
 		c.Assets = append(c.Assets, a)
 	}
 	c.Blocks = 10 + r.Intn(15)
+	c.Scale = pick(r, []int{3, 6, 6, 6, 9, 12, 18, 24})
+	switch profile {
+	case "takerate":
+		for i := range c.Assets {
+			c.Assets[i].Take = pick(r, []string{dec(1, 100), dec(1, 2), dec(1, 1000000), dec(999, 1000), dec(1, 10), "0", "1"})
+			c.Assets[i].StartOffset = pick(r, []int64{-int64(time.Hour), 0, int64(30 * time.Minute)})
+		}
+		c.Scale = pick(r, []int{0, 1, 3, 6, 6, 12, 24})
+	case "weights":
+		for i := range c.Assets {
+			c.Assets[i].Rate = pick(r, []string{dec(99, 100), dec(1, 2), dec(101, 100), dec(1, 1), dec(9, 10)})
+			c.Assets[i].Iv = pick(r, []int64{int64(time.Hour), int64(10 * time.Minute), int64(time.Minute), 0})
+		}
+	case "rewards":
+		c.Scale = pick(r, []int{3, 6, 6, 9, 12})
+		for i := range c.Assets {
+			c.Assets[i].StartOffset = pick(r, []int64{-int64(time.Hour), -int64(time.Hour), 0, int64(20 * time.Minute)})
+		}
+	}
 	return c
 }
 
@@ -121,8 +141,26 @@ func (w *World) assetIDs() []int64 {
 	return out
 }
 
+// Scale is the typical magnitude (power of ten) of amounts in the current history;
+// most amounts stay within three orders of it, extremes are mixed in rarely.
+var Scale = 6
+
 func amountClass(r *rand.Rand, max *big.Int) string {
 	var x *big.Int
+	if r.Intn(4) != 0 {
+		e := Scale - 3 + r.Intn(5)
+		if e < 0 {
+			e = 0
+		}
+		x = new(big.Int).Mul(pow10(e), big.NewInt(int64(1+r.Intn(9))))
+		if r.Intn(3) == 0 {
+			x.Add(x, big.NewInt(int64(r.Intn(1000))))
+		}
+		if max != nil && x.Cmp(max) > 0 && r.Intn(8) != 0 {
+			x = new(big.Int).Set(max)
+		}
+		return x.String()
+	}
 	switch r.Intn(10) {
 	case 0:
 		x = big.NewInt(1)
@@ -242,21 +280,56 @@ func (w *World) randDenom(r *rand.Rand) int64 {
 	return pick(r, ids)
 }
 
+// operation mix per profile (weights); see DESIGN.md section 12 "generator"
+var opKinds = []string{"delegate", "undelegate", "redelegate", "claim", "slashhook", "slashreal", "ndelegate", "nundelegate", "allocate", "donate", "gov", "jail"}
+var profileWeights = map[string][]int{
+	//                 del und red clm shk srl ndl nun alc don gov jail
+	"general":      {28, 15, 12, 10, 4, 3, 3, 2, 11, 1, 4, 2},
+	"custody":      {25, 22, 10, 8, 6, 2, 1, 1, 12, 4, 3, 1},
+	"unbonding":    {22, 30, 6, 4, 8, 3, 1, 1, 6, 1, 2, 1},
+	"shares":       {30, 22, 18, 4, 8, 2, 1, 1, 6, 0, 3, 0},
+	"slash":        {22, 18, 18, 4, 14, 6, 1, 1, 8, 0, 2, 1},
+	"takerate":     {30, 15, 8, 6, 2, 1, 1, 1, 8, 1, 8, 0},
+	"staking":      {20, 10, 8, 4, 2, 8, 12, 10, 10, 1, 4, 8},
+	"rewards":      {22, 8, 8, 24, 2, 1, 2, 1, 26, 1, 4, 1},
+	"weights":      {22, 8, 6, 10, 1, 1, 2, 1, 16, 0, 28, 1},
+	"redelegation": {24, 8, 34, 4, 8, 2, 1, 1, 6, 0, 2, 1},
+	"gov":          {14, 6, 4, 4, 1, 1, 1, 1, 6, 0, 60, 0},
+	"genesis":      {26, 18, 16, 8, 6, 2, 2, 1, 10, 1, 5, 1},
+	"determinism":  {26, 15, 12, 10, 5, 3, 3, 2, 11, 1, 5, 2},
+	"queries":      {24, 24, 20, 4, 8, 2, 1, 1, 6, 0, 2, 1},
+}
+
 func (w *World) genOp(r *rand.Rand, c Config) Action {
+	ws, ok := profileWeights[c.Profile]
+	if !ok {
+		ws = profileWeights["general"]
+	}
+	tot := 0
+	for _, x := range ws {
+		tot += x
+	}
+	x := r.Intn(tot)
+	kind := ""
+	for i, wgt := range ws {
+		if x < wgt {
+			kind = opKinds[i]
+			break
+		}
+		x -= wgt
+	}
 	ps := w.positions()
-	x := r.Intn(100)
-	switch {
-	case x < 28:
+	switch kind {
+	case "delegate":
 		return w.genDelegate(r)
-	case x < 43:
+	case "undelegate":
 		if len(ps) == 0 {
 			return w.genDelegate(r)
 		}
 		p := pick(r, ps)
 		bal := w.balanceOf(p).BigInt()
-		amt := w.withdrawAmount(r, bal)
-		return Action{Kind: "undelegate", U: p.u, V: p.v, D: p.d, Amt: amt}
-	case x < 55:
+		return Action{Kind: "undelegate", U: p.u, V: p.v, D: p.d, Amt: w.withdrawAmount(r, bal)}
+	case "redelegate":
 		if len(ps) == 0 {
 			return w.genDelegate(r)
 		}
@@ -267,7 +340,7 @@ func (w *World) genOp(r *rand.Rand, c Config) Action {
 			dst = int64(ValBase + (int(p.v-ValBase)+1+r.Intn(len(w.Vals)-1))%len(w.Vals))
 		}
 		return Action{Kind: "redelegate", U: p.u, V: p.v, V2: dst, D: p.d, Amt: w.withdrawAmount(r, bal)}
-	case x < 65:
+	case "claim":
 		if len(ps) == 0 {
 			return w.genDelegate(r)
 		}
@@ -276,15 +349,23 @@ func (w *World) genOp(r *rand.Rand, c Config) Action {
 		}
 		p := pick(r, ps)
 		return Action{Kind: "claim", U: p.u, V: p.v, D: p.d}
-	case x < 69:
+	case "slashhook":
 		return Action{Kind: "slashhook", V: w.randVal(r), Amt: fractionClass(r)}
-	case x < 72:
+	case "slashreal":
 		return Action{Kind: "slashreal", V: int64(ValBase + r.Intn(len(w.Vals))), Amt: fractionClass(r)}
-	case x < 75:
+	case "ndelegate":
 		return Action{Kind: "ndelegate", U: w.randUser(r), V: int64(ValBase + r.Intn(len(w.Vals))), Amt: pick(r, []string{"1", "1000", "1000000", "5000000"})}
-	case x < 77:
-		return Action{Kind: "nundelegate", U: w.randUser(r), V: int64(ValBase + r.Intn(len(w.Vals))), Amt: pick(r, []string{"1", "1000", "1000000", "5000000"})}
-	case x < 88:
+	case "nundelegate":
+		// often the whole native delegation of that user
+		u, v := w.randUser(r), int64(ValBase+r.Intn(len(w.Vals)))
+		amt := pick(r, []string{"1", "1000", "1000000", "5000000"})
+		if d, err := w.App.StakingKeeper.GetDelegation(w.Ctx, w.AccAddr(u), w.ValAddr(v)); err == nil && r.Intn(2) == 0 {
+			if val, err := w.App.StakingKeeper.GetValidator(w.Ctx, w.ValAddr(v)); err == nil {
+				amt = val.TokensFromShares(d.Shares).TruncateInt().String()
+			}
+		}
+		return Action{Kind: "nundelegate", U: u, V: v, Amt: amt}
+	case "allocate":
 		coins := []string{fmt.Sprintf("%d:%s", BondDenomID, pick(r, []string{"1", "1000", "1000000", "123456789", "1000000000000"}))}
 		if r.Intn(3) == 0 {
 			coins = append(coins, fmt.Sprintf("%d:%s", 8, pick(r, []string{"7", "1000000", "999999999999"})))
@@ -293,15 +374,14 @@ func (w *World) genOp(r *rand.Rand, c Config) Action {
 			coins = append(coins, fmt.Sprintf("%d:%s", 1, pick(r, []string{"5", "1000000"})))
 		}
 		return Action{Kind: "allocate", V: int64(ValBase + r.Intn(len(w.Vals))), Coins: coins}
-	case x < 89:
+	case "donate":
 		return Action{Kind: "donate", U: w.randUser(r), V: pick(r, []int64{AccAlliance, AccRewards}), Coins: []string{fmt.Sprintf("%d:%s", pick(r, []int64{1, 2, 9}), "1000")}}
-	case x < 93:
+	case "gov":
 		return w.genGov(r, c)
-	case x < 95:
+	case "jail":
 		return Action{Kind: pick(r, []string{"jail", "unjail"}), V: int64(ValBase + r.Intn(len(w.Vals)))}
-	default:
-		return w.genDelegate(r)
 	}
+	return w.genDelegate(r)
 }
 
 func (w *World) genDelegate(r *rand.Rand) Action {
